@@ -4,7 +4,7 @@ from __future__ import annotations
 
 import math
 from collections.abc import Sequence
-from typing import cast
+from typing import Any, cast
 
 import numpy as np
 import onnx_ir as ir
@@ -30,8 +30,10 @@ def _shape_from_params(shape_param: Sequence[int]) -> tuple[int, ...]:
     return tuple(dims)
 
 
-def _scalar_constant(ctx: LoweringContextProtocol, value: float) -> ir.Value:
-    arr = np.asarray(value, dtype=np.float32)
+def _scalar_constant(
+    ctx: LoweringContextProtocol, value: float, np_dtype: Any = np.float32
+) -> ir.Value:
+    arr = np.asarray(value, dtype=np_dtype)
     result: ir.Value = ctx.builder.add_initializer_from_scalar(
         name=ctx.fresh_name("const"), value=arr
     )
@@ -87,17 +89,24 @@ class RandomBitsPlugin(PrimitiveLeafPlugin):
         # Force materialisation of the key so upstream RNG nodes stay live.
         ctx.get_value_for_var(key_var, name_hint=ctx.fresh_name("rng_key"))
 
+        # The scale constant is an initializer: under enable_double_precision it is
+        # promoted to DOUBLE, so the whole float pipeline has to be DOUBLE as well
+        # (a FLOAT uniform times a DOUBLE scale is not a valid model).
+        double = bool(getattr(ctx.builder, "enable_double_precision", False))
+        work_enum = ir.DataType.DOUBLE if double else ir.DataType.FLOAT
+        work_np = np.float64 if double else np.float32
+
         uniform_val = cast(
             ir.Value,
             ctx.builder.RandomUniform(
                 low=0.0,
                 high=1.0,
-                dtype=int(ir.DataType.FLOAT.value),
+                dtype=int(work_enum.value),
                 shape=shape,
                 _outputs=[ctx.fresh_name("rand_bits_uniform_template")],
             ),
         )
-        uniform_val.type = ir.TensorType(ir.DataType.FLOAT)
+        uniform_val.type = ir.TensorType(work_enum)
         _stamp_type_and_shape(uniform_val, shape)
 
         # RandomUniformLike uses template shape and keeps ONNX coverage aligned with
@@ -108,15 +117,15 @@ class RandomBitsPlugin(PrimitiveLeafPlugin):
                 uniform_val,
                 low=0.0,
                 high=1.0,
-                dtype=int(ir.DataType.FLOAT.value),
+                dtype=int(work_enum.value),
                 _outputs=[ctx.fresh_name("rand_bits_uniform")],
             ),
         )
-        uniform_like.type = ir.TensorType(ir.DataType.FLOAT)
+        uniform_like.type = ir.TensorType(work_enum)
         _stamp_type_and_shape(uniform_like, shape)
 
         scale = float(math.ldexp(1.0, bit_width))
-        scale_const = _scalar_constant(ctx, scale)
+        scale_const = _scalar_constant(ctx, scale, work_np)
         scaled_val = cast(
             ir.Value,
             ctx.builder.Mul(
@@ -125,14 +134,14 @@ class RandomBitsPlugin(PrimitiveLeafPlugin):
                 _outputs=[ctx.fresh_name("rand_bits_scaled")],
             ),
         )
-        scaled_val.type = ir.TensorType(ir.DataType.FLOAT)
+        scaled_val.type = ir.TensorType(work_enum)
         _stamp_type_and_shape(scaled_val, shape)
 
         floored_val = cast(
             ir.Value,
             ctx.builder.Floor(scaled_val, _outputs=[ctx.fresh_name("rand_bits_floor")]),
         )
-        floored_val.type = ir.TensorType(ir.DataType.FLOAT)
+        floored_val.type = ir.TensorType(work_enum)
         _stamp_type_and_shape(floored_val, shape)
 
         target_dtype = ir.DataType.UINT32 if bit_width <= 32 else ir.DataType.UINT64
